@@ -66,6 +66,35 @@ def sortAttrs : List (Str × Str) → List (Str × Str)
   | [] => []
   | x :: xs => insertAttr x (sortAttrs xs)
 
+/-- `'--' in text` -/
+def hasDD : Str → Bool
+  | '-' :: '-' :: _ => true
+  | _ :: r => hasDD r
+  | [] => false
+
+/-- `text.replace('--', '- -')` : left to right, non-overlapping -/
+def replaceDD : Str → Str
+  | '-' :: '-' :: r => '-' :: ' ' :: '-' :: replaceDD r
+  | c :: r => c :: replaceDD r
+  | [] => []
+
+/-- `while '--' in text: text = text.replace('--', '- -')` (fuel: two rounds always suffice, see `hasDD_fixDD`) -/
+def fixDD : Nat → Str → Str
+  | 0, t => t
+  | f + 1, t => if hasDD t then fixDD f (replaceDD t) else t
+
+/-- `text.endswith('-')` -/
+def endsDash : Str → Bool
+  | [] => false
+  | [c] => c == '-'
+  | _ :: c :: r => endsDash (c :: r)
+
+/-- the text `XmlStream.comment(theS)` puts between `<!--` and `-->`: `_encode`, then no `--` inside, then no `-`
+directly before the closing `-->` -/
+def commentText (s : Str) : Str :=
+  let t := fixDD ((encodeL s).length + 2) (encodeL s)
+  if endsDash t then t ++ [' '] else t
+
 inductive Op where
   | start (name : Str) (attrs : List (Str × Str))
   | chars (s : Str)
@@ -169,7 +198,7 @@ def stepW (w : WState) : Op → Except Err (WState × Str)
     | .ok w2 => .ok (w2, c1 ++ s)
   | .comment s =>
     let (w1, c1) := w.closeIfOpen
-    .ok (w1, c1 ++ ['<', '!', '-', '-'] ++ encodeL s ++ ['-', '-', '>'])
+    .ok (w1, c1 ++ ['<', '!', '-', '-'] ++ commentText s ++ ['-', '-', '>'])
   | .pi s =>
     let (w1, c1) := w.closeIfOpen
     match w1.flipIndent false with
